@@ -1023,6 +1023,22 @@ func (v *Validators) GetByPublicKey(pubKey types.Pubkey) *Validator {
 	return nil
 }
 
+// ChangePubKey makes the validator of a candidate follow the candidate to its new public key, so that the accumulated
+// reward and the absence record stay with it and the candidate is still found by the validator's key
+func (v *Validators) ChangePubKey(old types.Pubkey, new types.Pubkey) {
+	val := v.GetByPublicKey(old)
+	if val == nil {
+		return
+	}
+
+	val.lock.Lock()
+	val.PubKey = new
+	val.isDirty = true
+	val.lock.Unlock()
+
+	val.setTmAddress()
+}
+
 // LoadValidators loads only list of validators (for read)
 func (v *Validators) LoadValidators() {
 	v.lock.Lock()
